@@ -125,6 +125,13 @@ func H_C12_ops() {
 		}
 		c12ProbeAll(c, model, sep, opts, "step"+itoa(stepNo))
 	}
+	// the same tree read with the other separator setting: names written without a separator that
+	// contain a dot are single keys, the dotted paths of a reader with PathSep do not find them
+	if sep {
+		c12ProbeAll(c, model, false, nil, "read-without-separator")
+	} else {
+		c12ProbeAll(c, model, true, []ucfg.Option{ucfg.PathSep(".")}, "read-with-separator")
+	}
 	verif.Reach("history checked")
 }
 
